@@ -38,6 +38,7 @@ func runC10(p *Prog, r *Report) {
 	c10Index(p, r)
 	c10Recursion(p, r)
 	c10LoopProgress(p, r)
+	c10LexerEOF(p, r)
 	r.Floor("R10.1-panics", 8)
 	r.Floor("R10.3-nil-deref", 40)
 	r.Floor("R10.4-index", 8)
@@ -1210,4 +1211,391 @@ func canonPath(v ssa.Value) string {
 		return canonPath(x.X)
 	}
 	return v.Name()
+}
+
+// ---------------------------------------------------------------------------------------------
+// R10.7 lexer loops leave at end of input
+//
+// The two hand-written lexers read through a cursor whose read methods saturate at the end of the input: they return a
+// negative sentinel and move nothing. A loop that keeps going while "the next character is not X" therefore spins
+// forever once the input is exhausted unless one of its exits is taken at the sentinel. For every loop (in a method of
+// the cursor type) that calls such a method, the branch conditions are constant-folded under "every saturating read
+// returns its sentinel, and position < len(src) is false"; if a cycle through the loop header survives, the loop can
+// hang at end of input.
+
+type foldVal struct {
+	n  int64
+	ok bool
+}
+
+// foldPure interprets a side-effect-free integer/boolean function on constant arguments.
+func foldPure(fn *ssa.Function, args []foldVal, depth int) foldVal {
+	if depth > 5 || len(fn.Blocks) == 0 || len(args) != len(fn.Params) {
+		return foldVal{}
+	}
+	env := map[ssa.Value]foldVal{}
+	for i, prm := range fn.Params {
+		env[prm] = args[i]
+	}
+	b := fn.Blocks[0]
+	var prev *ssa.BasicBlock
+	for steps := 0; steps < 200; steps++ {
+		for _, in := range b.Instrs {
+			switch x := in.(type) {
+			case *ssa.Phi:
+				for i, pb := range b.Preds {
+					if pb == prev {
+						env[x] = foldOperand(x.Edges[i], env, depth)
+					}
+				}
+			case *ssa.If:
+				c := foldOperand(x.Cond, env, depth)
+				if !c.ok {
+					return foldVal{}
+				}
+				prev = b
+				if c.n != 0 {
+					b = b.Succs[0]
+				} else {
+					b = b.Succs[1]
+				}
+			case *ssa.Jump:
+				prev = b
+				b = b.Succs[0]
+			case *ssa.Return:
+				if len(x.Results) != 1 {
+					return foldVal{}
+				}
+				return foldOperand(x.Results[0], env, depth)
+			case *ssa.DebugRef:
+			case ssa.Value:
+				env[x] = foldOperand(x, env, depth)
+			default:
+				return foldVal{}
+			}
+		}
+	}
+	return foldVal{}
+}
+
+func foldOperand(v ssa.Value, env map[ssa.Value]foldVal, depth int) foldVal {
+	if r, ok := env[v]; ok {
+		return r
+	}
+	switch x := v.(type) {
+	case *ssa.Const:
+		if n, ok := constInt(x); ok {
+			return foldVal{n, true}
+		}
+		if b, ok := constBool(x); ok {
+			if b {
+				return foldVal{1, true}
+			}
+			return foldVal{0, true}
+		}
+	case *ssa.BinOp:
+		l, r := foldOperand(x.X, env, depth), foldOperand(x.Y, env, depth)
+		if !l.ok || !r.ok {
+			return foldVal{}
+		}
+		bv := func(c bool) foldVal {
+			if c {
+				return foldVal{1, true}
+			}
+			return foldVal{0, true}
+		}
+		switch x.Op {
+		case token.EQL:
+			return bv(l.n == r.n)
+		case token.NEQ:
+			return bv(l.n != r.n)
+		case token.LSS:
+			return bv(l.n < r.n)
+		case token.LEQ:
+			return bv(l.n <= r.n)
+		case token.GTR:
+			return bv(l.n > r.n)
+		case token.GEQ:
+			return bv(l.n >= r.n)
+		case token.ADD:
+			return foldVal{l.n + r.n, true}
+		case token.SUB:
+			return foldVal{l.n - r.n, true}
+		case token.OR:
+			return foldVal{l.n | r.n, true}
+		case token.AND:
+			return foldVal{l.n & r.n, true}
+		}
+	case *ssa.UnOp:
+		if x.Op == token.NOT {
+			o := foldOperand(x.X, env, depth)
+			if o.ok {
+				return foldVal{1 - o.n, true}
+			}
+		}
+	case *ssa.Convert:
+		return foldOperand(x.X, env, depth)
+	case *ssa.ChangeType:
+		return foldOperand(x.X, env, depth)
+	case *ssa.Call:
+		f := x.Call.StaticCallee()
+		if f == nil || x.Call.IsInvoke() {
+			return foldVal{}
+		}
+		var args []foldVal
+		for _, a := range x.Call.Args {
+			av := foldOperand(a, env, depth)
+			if !av.ok {
+				return foldVal{}
+			}
+			args = append(args, av)
+		}
+		return foldPure(f, args, depth+1)
+	}
+	return foldVal{}
+}
+
+// eofState computes, for function fn (or only the blocks in region when region != nil), the values that are known
+// constants once every saturating read returns its sentinel.
+func eofState(fn *ssa.Function, region map[*ssa.BasicBlock]bool, known func(*ssa.Function) (int64, bool)) map[ssa.Value]foldVal {
+	env := map[ssa.Value]foldVal{}
+	for round := 0; round < 4; round++ {
+		for _, b := range fn.Blocks {
+			if region != nil && !region[b] {
+				continue
+			}
+			for _, in := range b.Instrs {
+				switch x := in.(type) {
+				case *ssa.Call:
+					if f := x.Call.StaticCallee(); f != nil {
+						if n, ok := known(f); ok {
+							env[x] = foldVal{n, true}
+						}
+					}
+				case *ssa.Extract:
+					// (tt, ch) results are not tracked
+				case *ssa.Phi:
+					all, any := true, false
+					var val foldVal
+					for j, e := range x.Edges {
+						if region != nil && !region[b.Preds[j]] {
+							continue
+						}
+						ev := foldOperand(e, env, 0)
+						if !ev.ok || (any && ev.n != val.n) {
+							all = false
+							break
+						}
+						any, val = true, ev
+					}
+					if all && any {
+						env[x] = val
+					}
+				}
+			}
+		}
+	}
+	return env
+}
+
+func c10LexerEOF(p *Prog, r *Report) {
+	const rule = "R10.7-lexer-eof"
+	total := 0
+	for _, ct := range []struct{ pkg, typ string }{{pSchemaPar, "lexer"}, {pParser, "scanner"}} {
+		var methods []*ssa.Function
+		for _, fn := range p.Funcs {
+			if fnPkgPath(fn) != ct.pkg || fn.Parent() != nil || fn.Signature.Recv() == nil || !typeIs(fn.Signature.Recv().Type(), ct.pkg, ct.typ) || len(fn.Blocks) == 0 {
+				continue
+			}
+			methods = append(methods, fn)
+		}
+		// sentinel readers: methods that return a negative constant on some path
+		sentinel := map[*ssa.Function]int64{}
+		for _, fn := range methods {
+			for _, b := range fn.Blocks {
+				if ret, ok := lastInstr(b).(*ssa.Return); ok && len(ret.Results) == 1 {
+					if n, ok := constInt(ret.Results[0]); ok && n < 0 {
+						sentinel[fn] = n
+					}
+				}
+			}
+		}
+		if len(sentinel) == 0 {
+			r.Anchor(rule, ct.pkg+"."+ct.typ+" sentinel reader")
+			continue
+		}
+		isCursorField := func(fn *ssa.Function, v ssa.Value) bool {
+			if ld, ok := v.(*ssa.UnOp); ok && ld.Op == token.MUL {
+				if base, _, ok := topField(ld.X); ok && base == ssa.Value(fn.Params[0]) {
+					return true
+				}
+			}
+			return false
+		}
+		atEnd := func(fn *ssa.Function, cond ssa.Value, env map[ssa.Value]foldVal) foldVal {
+			// position < len(src) on the cursor's own fields
+			if bo, ok := cond.(*ssa.BinOp); ok && isCursorField(fn, bo.X) {
+				if c, ok := bo.Y.(*ssa.Call); ok {
+					if bi, ok := c.Call.Value.(*ssa.Builtin); ok && bi.Name() == "len" && isCursorField(fn, c.Call.Args[0]) {
+						switch bo.Op {
+						case token.LSS:
+							return foldVal{0, true}
+						case token.GEQ:
+							return foldVal{1, true}
+						}
+					}
+				}
+			}
+			return foldOperand(cond, env, 0)
+		}
+		// what every other method of the cursor returns at end of input (single-result methods)
+		eofRet := map[*ssa.Function]foldVal{}
+		busy := map[*ssa.Function]bool{}
+		var known func(f *ssa.Function) (int64, bool)
+		var eofReturn func(fn *ssa.Function) foldVal
+		known = func(f *ssa.Function) (int64, bool) {
+			if n, ok := sentinel[f]; ok {
+				return n, true
+			}
+			if f.Signature.Recv() == nil || !typeIs(f.Signature.Recv().Type(), ct.pkg, ct.typ) || f.Signature.Results().Len() != 1 || len(f.Blocks) == 0 {
+				return 0, false
+			}
+			v := eofReturn(f)
+			return v.n, v.ok
+		}
+		eofReturn = func(fn *ssa.Function) foldVal {
+			if v, ok := eofRet[fn]; ok {
+				return v
+			}
+			if busy[fn] {
+				return foldVal{}
+			}
+			busy[fn] = true
+			defer delete(busy, fn)
+			// alternate: constants -> reachable blocks at end of input -> constants (phis ignore unreachable edges)
+			var env map[ssa.Value]foldVal
+			var region map[*ssa.BasicBlock]bool
+			for iter := 0; iter < 3; iter++ {
+				env = eofState(fn, region, known)
+				reach := map[*ssa.BasicBlock]bool{fn.Blocks[0]: true}
+				wl := []*ssa.BasicBlock{fn.Blocks[0]}
+				for len(wl) > 0 {
+					b := wl[len(wl)-1]
+					wl = wl[:len(wl)-1]
+					succs := b.Succs
+					if iff, ok := lastInstr(b).(*ssa.If); ok {
+						if c := atEnd(fn, iff.Cond, env); c.ok {
+							if c.n != 0 {
+								succs = b.Succs[:1]
+							} else {
+								succs = b.Succs[1:2]
+							}
+						}
+					}
+					for _, s2 := range succs {
+						if !reach[s2] {
+							reach[s2] = true
+							wl = append(wl, s2)
+						}
+					}
+				}
+				region = reach
+			}
+			seen := map[*ssa.BasicBlock]bool{fn.Blocks[0]: true}
+			work := []*ssa.BasicBlock{fn.Blocks[0]}
+			var res foldVal
+			first, same := true, true
+			for len(work) > 0 {
+				b := work[len(work)-1]
+				work = work[:len(work)-1]
+				succs := b.Succs
+				if iff, ok := lastInstr(b).(*ssa.If); ok {
+					if c := atEnd(fn, iff.Cond, env); c.ok {
+						if c.n != 0 {
+							succs = b.Succs[:1]
+						} else {
+							succs = b.Succs[1:2]
+						}
+					}
+				}
+				if ret, ok := lastInstr(b).(*ssa.Return); ok && len(ret.Results) == 1 {
+					v := foldOperand(ret.Results[0], env, 0)
+					if !v.ok || (!first && v.n != res.n) {
+						same = false
+					}
+					res, first = v, false
+				}
+				for _, s2 := range succs {
+					if !seen[s2] {
+						seen[s2] = true
+						work = append(work, s2)
+					}
+				}
+			}
+			out := foldVal{}
+			if same && !first {
+				out = res
+			}
+			eofRet[fn] = out
+			return out
+		}
+		pkgName := ct.pkg[strings.LastIndex(ct.pkg, "/")+1:]
+		for _, fn := range methods {
+			if _, isReader := sentinel[fn]; isReader {
+				continue // the readers' own loops wait on the io.Reader, not on the sentinel
+			}
+			for _, loop := range loopsOf(fn) {
+				uses := false
+				for b := range loop.Body {
+					for _, in := range b.Instrs {
+						if c, ok := in.(*ssa.Call); ok && c.Call.StaticCallee() != nil {
+							if _, ok := known(c.Call.StaticCallee()); ok {
+								uses = true
+							}
+						}
+					}
+				}
+				if !uses {
+					continue
+				}
+				total++
+				env := eofState(fn, loop.Body, known)
+				// prune edges not taken at end of input; is the header still on a cycle?
+				succ := func(b *ssa.BasicBlock) []*ssa.BasicBlock {
+					if iff, ok := lastInstr(b).(*ssa.If); ok {
+						if c := atEnd(fn, iff.Cond, env); c.ok {
+							if c.n != 0 {
+								return b.Succs[:1]
+							}
+							return b.Succs[1:2]
+						}
+					}
+					return b.Succs
+				}
+				seen := map[*ssa.BasicBlock]bool{}
+				var dfs func(b *ssa.BasicBlock) bool
+				dfs = func(b *ssa.BasicBlock) bool {
+					for _, s2 := range succ(b) {
+						if !loop.Body[s2] {
+							continue
+						}
+						if s2 == loop.Header {
+							return true
+						}
+						if !seen[s2] {
+							seen[s2] = true
+							if dfs(s2) {
+								return true
+							}
+						}
+					}
+					return false
+				}
+				hang := dfs(loop.Header)
+				r.Check(!hang, rule, pkgName+"."+fnShort(fn)+":loop@"+itoa(loop.Header.Index), p.pos(lastInstr(loop.Header).Pos()), "the loop is left once the reader returns its end-of-input sentinel",
+					"a loop in "+fnShort(fn)+" keeps iterating when the input is exhausted: its reads return the end-of-input sentinel without moving, and no exit is taken for that value — the lexer hangs on an input that ends inside this construct")
+			}
+		}
+	}
+	r.Check(total >= 8, rule, "sites", "-", itoa(total)+" sentinel-driven lexer loops", "expected at least 8 lexer loops that read through a saturating reader, found "+itoa(total))
 }
